@@ -111,6 +111,19 @@ FIXED = {
                       ("validate", 0, False, False, {A: S(("ref", K(B)))}), ("keys", 0, False, False, {A: S(("ref", K(B)))}),
                       ("explain", 0, False, False, {A: S(("ref", K(B)))}), ("evaluate", 2, False, False, {A: S(("ref", K(B)))}),
                       ("evaluate", 0, False, False, {A: S(("ref", K(B))), B: 3}), ("evaluate", 0, False, False, {})])),
+    "D25": dict(  # fix 6884003: a pre-set key overlaid away by the caller's non-section value is listed by explain
+        props=["C11", "C10", "C08", "C01", "C03"],
+        scn=dict(ftable={100: ("tag",)},
+                 env={1: dict(fid=100, kwargs=[opt(K(S_, SX_))], default_options={S_: {SX_: 1}})},
+                 exprs=[("with", False, {S_: {SX_: 1}}, opt(K(S_, SX_))), ("dataset", 1),
+                        ("with", False, {S_: {SX_: 1}}, opt(K(S_, SX_), val(9)))],
+                 ops=[("explain", 0, False, False, {S_: []}), ("validate", 0, False, False, {S_: []}),
+                      ("keys", 0, False, False, {S_: []}), ("evaluate", 0, False, False, {S_: []}),
+                      ("explain", 0, False, False, {S_: [5]}), ("explain", 0, False, False, {}),
+                      ("explain", 0, False, False, {S_: {SY_: 2}}), ("explain", 0, False, False, {S_: {SX_: 7}}),
+                      ("explain", 1, False, False, {S_: []}), ("validate", 1, False, False, {S_: []}),
+                      ("evaluate", 1, False, False, {}), ("explain", 2, False, False, {S_: []}),
+                      ("evaluate", 2, False, False, {S_: []})])),
 }
 
 
